@@ -112,6 +112,18 @@ bool post_write_ready()
   return g_onWrite == 0 && g_poll_sets == 0;                                  // still pending (or would block): nothing signalled
 }
 
+// read(buffer, maxSize, size)
+long g_recv_ret; int g_recv_calls; int g_last_error; usize g_maxSize; usize* g_sizep;
+bool post_read(bool ret)
+{
+  const ClientImpl* c = g_client;
+  if(g_recv_calls != 1 || c->_suspended != g_suspended0) return false;
+  if(ret) return g_recv_ret > 0 && *g_sizep == (usize)g_recv_ret && *g_sizep <= g_maxSize && g_closing == 0;
+  if(*g_sizep != 0) return false;
+  if(g_recv_ret == -1 && g_last_error == 0) return g_closing == 0;          // would block: try again later
+  return (g_recv_ret == 0 || g_recv_ret == -1) && g_closing == (const void*)c; // closed or failed: queued for onClosed
+}
+
 // suspend() / resume()
 bool post_suspend_resume(bool target)
 {
@@ -127,6 +139,7 @@ bool post_suspend_resume(bool target)
 // one-call wrappers (ClientImpl / Server::Private are nested classes without C spelling)
 bool w_client_write(void* c, const byte* data, usize size, usize* postponed) { return ((ClientImpl*)c)->write(data, size, postponed); }
 void w_write_ready(void* p, void* c) { ((Server::Private*)p)->nv_write_ready(*(ClientImpl*)c); }
+bool w_client_read(void* c, byte* buffer, usize maxSize, usize* size) { return ((ClientImpl*)c)->read(buffer, maxSize, *size); }
 void w_client_suspend(void* c) { ((ClientImpl*)c)->suspend(); }
 void w_client_resume(void* c) { ((ClientImpl*)c)->resume(); }
 
@@ -209,6 +222,25 @@ void h_write_ready()
   if(g_onWrite == 1 && g_backlog0 > 0) { NV_REACH("write_ready.drained"); }
   if(g_onWrite == 0 && g_onClosed == 0 && g_send_ret > 0) { NV_REACH("write_ready.partial"); }
   if(g_onClosed == 1) { NV_REACH("write_ready.closed"); }
+}
+
+void h_read()
+{
+  NV_CLIENT_INPUTS();
+  NV_INPUT(usize, maxSize);
+  NV_ASSUME(maxSize <= NV_MAXSZ);
+  Server::Private* P;
+  Recorder rec;
+  ClientImpl* c = make_client(rec, P, owned, cap, head, sz, suspended);
+  reset_ghosts(c, os0, pos, woff, woff2, suspended);
+  byte* buf = (byte*)new char[maxSize + 1];
+  usize size = 777;
+  g_recv_calls = 0; g_recv_ret = 0; g_maxSize = maxSize; g_sizep = &size;
+  bool r = w_client_read(c, buf, maxSize, &size);
+  NV_POST("ClientImpl::read: size == bytes received; would-block is no error; closed/failed => queued for onClosed", post_read(r));
+  if(r) { NV_REACH("read.data"); }
+  if(!r && g_recv_ret == -1 && g_last_error == 0) { NV_REACH("read.would_block"); }
+  if(!r && g_recv_ret == 0) { NV_REACH("read.closed"); }
 }
 
 void h_suspend()
